@@ -23,6 +23,7 @@ CUR = [("A(0) U(0,1) W(0) R(0,0,0) Z", {}), ("A(0) U(0,0) W(0) W(0) R(0,0,0) R(0
        ("A(0) U(1,0) B(1,2) P(1,0) W(0) W(0) W(0) R(1,0,0) R(1,1,0) R(1,2,0) Z", {}),
        ("A(0) U(1,0) U(0,0) B(1,2) B(0,2) P(0,0) W(0) W(0) W(0) R(1,0,0) R(1,1,0) R(0,2,0) R(0,3,0) Z", {}),
        ("A(0) U(1,0) B(1,1) P(1,0) W(0) W(0) R(1,0,0) R(1,1,0) Z", {}), ("A(0) U(1,0) U(0,0) B(1,1) P(0,0) W(0) W(0) R(1,0,0) R(0,1,0) Z", {})]
+CUR += [("A(0) U(0,0) R(0,0,1) R(0,1,1) W(0) W(0)", {}), ("A(0) U(0,0) R(0,0,1) R(0,1,1) R(0,2,1) W(0) W(0)", {})]
 ALPHA = ["U(0,0)", "U(0,1)", "U(0,2)", "U(1,1)", "N(0,1)", "N(0,0)", "W(0)", "WK(0,1)", "WK(0,4)", "R(0,%d,0)", "R(0,%d,1)", "R(1,%d,0)", "P(0,0)"]
 
 
